@@ -318,7 +318,7 @@ fn persisted_files(seg: &str) -> Vec<String> {
 }
 
 pub fn one_case(history: &[(String, Scenario, bool)], mode: &str, sc: Scenario, seed: u64, acc: &mut Acc) {
-    let dir = format!("{}/scratch/c12-{}-{}", crate::util::VERIF_DIR, std::process::id(), seed);
+    let dir = format!("{}/scratch/c12-{}-{}", crate::util::out_dir(), std::process::id(), seed);
     let _ = std::fs::remove_dir_all(&dir);
     let _ = std::fs::create_dir_all(&dir);
     let mut args: Vec<String> = vec!["c12child".into(), dir.clone(), seed.to_string()];
